@@ -755,3 +755,62 @@ def mon_c14(scripts, stats):
             h = msg_header(a['message'])
             if h is not None and h['recipient'] == pad32(module_of(sc)) and [(c['kind'], c['ok']) for c in calls] != [('Mint', '1')]:
                 yield sc, n, 'C14: module-addressed receive succeeded without a successful mint'
+
+
+# ---------------- C01 ----------------
+def from_hex(s):
+    """go-ethereum common.FromHex on a byte string: strip 0x/0X, left-pad odd length, decode up to the first bad pair"""
+    if len(s) >= 2 and s[0:1] == b'0' and s[1:2] in (b'x', b'X'):
+        s = s[2:]
+    if len(s) % 2:
+        s = b'0' + s
+    out = bytearray()
+    for i in range(0, len(s), 2):
+        try:
+            out.append(int(s[i:i + 2].decode('latin1'), 16) if all(c in b'0123456789abcdefABCDEF' for c in s[i:i + 2]) else int('zz', 16))
+        except ValueError:
+            break
+    return bytes(out)
+
+
+def expected_accept(sc, msg, att, attesters, thr):
+    """the property's own acceptance rule, from the recovery oracle (go-ethereum's Ecrecover called by the harness)"""
+    if thr == 0 or len(att) != 65 * thr:
+        return False
+    digest = keccak256(msg)
+    enabled = set(from_hex(a) for a in attesters)
+    prev = None
+    for i in range(thr):
+        sig = bytearray(att[65 * i:65 * i + 65])
+        if sig[64] in (27, 28):
+            sig[64] -= 27
+        pk = sc.oracle.get((digest.hex(), bytes(sig).hex()))
+        if pk is None or len(pk) != 65:
+            return False
+        addr = keccak256(pk[1:])[12:]
+        if prev is not None and not prev < addr:
+            return False
+        if pk not in enabled:
+            return False
+        prev = addr
+    return True
+
+
+def mon_c01(scripts, stats):
+    for sc, n, inp, cmd, ty, a, pre, obs in walk(scripts):
+        if cmd == 'VERIFY':
+            attesters = [bytes.fromhex(x) for x in a.get('attesters', '').split(',') if x]
+            exp = expected_accept(sc, bytes.fromhex(a['msg']), bytes.fromhex(a['att']), attesters, int(a['thr']))
+            got = obs.get('V', [''])[0]
+            stats['mon_c01_verify_' + ('accept' if exp else 'reject')] += 1
+            if got != ('accept' if exp else 'reject'):
+                yield sc, n, 'C01: verifier answered %s, the quorum rule says %s' % (got, 'accept' if exp else 'reject')
+        elif cmd == 'TX' and ty in ('ReceiveMessage', 'ReplaceMessage', 'ReplaceDepositForBurn') and outcome(obs) == 'ok':
+            st = state_of(pre)
+            msg = bytes.fromhex(a['message'] if ty == 'ReceiveMessage' else a['orig'])
+            att = bytes.fromhex(a['attestation'] if ty == 'ReceiveMessage' else a['att'])
+            attesters = [bytes.fromhex(x['v']) for x in st['attester']]
+            thr = int(st['num'].get('threshold', '0'))
+            stats['mon_c01_accepted_via_handlers'] += 1
+            if not expected_accept(sc, msg, att, attesters, thr):
+                yield sc, n, 'C01: %s accepted a message without a quorum of distinct enabled attesters in order (threshold %d)' % (ty, thr)
